@@ -603,7 +603,19 @@ def _sigma_real(it, ranges, bvs, body, label):
     if is_conc(body) and _num(body) == 0:
         return 0
     body = zr(body)
-    canon = [z3.Int("b!%d" % k) for k in range(len(bvs))]
+    # canonical bound-variable names carry the nesting depth, so that an inner sum's variables never clash with an enclosing sum's
+    depth = 0
+    reg = getattr(it.ctx, "sums", {})
+    stack, seen = [body], set()
+    while stack:
+        t = stack.pop()
+        if t.get_id() in seen:
+            continue
+        seen.add(t.get_id())
+        if z3.is_app(t) and t.decl().name() in reg:
+            depth = max(depth, getattr(reg[t.decl().name()], "depth", 0) + 1)
+        stack.extend(t.children())
+    canon = [z3.Int("b%d!%d" % (depth, k)) for k in range(len(bvs))]
     sub = list(zip(bvs, canon))
     cbody = z3.simplify(z3.substitute(body, *sub))
     cr = []
@@ -632,6 +644,7 @@ def _sigma_real(it, ranges, bvs, body, label):
     if fname not in it.ctx.sums:
         it.ctx.sums[fname] = SumTerm(fname, [(c, lo_t, hi_t) for c, (lo_t, hi_t) in zip(canon, cr)], cbody, term)
         it.ctx.sums[fname].params = args
+        it.ctx.sums[fname].depth = depth
     if syntactically_nonneg(cbody):
         # Sigma rule (monotonicity): a sum of terms that are squares / products of squares is non-negative
         it.ctx._axiom("sum-nonneg", term >= 0)
@@ -748,13 +761,56 @@ def _extreme(it, shape, snap, kind):
             for v in vals[1:]:
                 r = ite(cmp(">=" if kind == "max" else "<=", r, v), r, v)
             return r
-    c = z3.Real(fresh_name(kind))
+    c = it.ctx.fresh_real(kind)
     if not hasattr(it.ctx, "extremes"):
         it.ctx.extremes = {}
-    it.ctx.extremes[str(c)] = ExtremeTerm(str(c), kind, shape, snap, c)
+    et = ExtremeTerm(str(c), kind, shape, snap, c)
+    it.ctx.extremes[c.sexpr()] = et
     for d in shape:
         it.ctx.definedness(cmp(">", d, 0), "%s of a non-empty array" % kind)
+    # attainment: the extreme is the value at some (Skolem) index inside the array
+    w = [it.ctx.fresh_int("arg" + kind) for _ in shape]
+    et.witness = w
+    it.ctx.assumptions.append(z3.And(*[z3.And(wi >= 0, wi < zi(d)) for wi, d in zip(w, shape)]))
+    it.ctx.assumptions.append(c == zr(snap(list(w))))
     return c
+
+
+def extreme_bound(it, term, idx):
+    """defining inequality of a max / min term instantiated at idx:  idx in bounds => max >= a[idx] (min <= a[idx])"""
+    et = it.ctx.extremes[term.sexpr()]
+    inb = z3.And(*[z3.And(zi(i) >= 0, zi(i) < zi(d)) for i, d in zip(idx, et.shape)])
+    v = zr(et.snap(list(idx)))
+    return z3.Implies(inb, et.const >= v if et.kind == "max" else et.const <= v)
+
+
+def find_extremes(it, e):
+    out, seen, stack = [], set(), [e]
+    reg = getattr(it.ctx, "extremes", {})
+    while stack:
+        t = stack.pop()
+        if not is_z3(t) or t.get_id() in seen:
+            continue
+        seen.add(t.get_id())
+        if t.sexpr() in reg:
+            out.append(t)
+            continue
+        stack.extend(t.children())
+    return out
+
+
+def extreme_cross_instances(it, terms, extra_idx=()):
+    """bounds of every extreme term at the witnesses of all the others (and at extra indices) of matching rank"""
+    out = []
+    ets = [it.ctx.extremes[t.sexpr()] for t in terms]
+    for t, et in zip(terms, ets):
+        for other in ets:
+            if len(other.witness) == len(et.shape):
+                out.append(extreme_bound(it, t, other.witness))
+        for idx in extra_idx:
+            if len(idx) == len(et.shape):
+                out.append(extreme_bound(it, t, idx))
+    return out
 
 
 # ----------------------------------------------------------------------------- array attributes / methods
@@ -1754,3 +1810,33 @@ def _rbs(it, x, y, z_, kx=3, ky=3, s=0, **kw):
     if kw:
         raise Unsupported("RectBivariateSpline options %s" % list(kw))
     return SplineObj(it, x, y, z_, kx, ky)
+
+
+def extreme_chain_instances(it, terms):
+    """for nested / joint max-min terms: instantiate the defining bounds of every term along the attaining index path of every other term
+    (path of X = its witness, then the witness of the inner extreme found there, ...); this is what relates max_y max_x, max_(y,x) and scaled copies"""
+    reg = getattr(it.ctx, "extremes", {})
+    out = []
+
+    def path_of(t):
+        path, cur = [], t
+        while is_z3(cur) and cur.sexpr() in reg:
+            et = reg[cur.sexpr()]
+            path += list(et.witness)
+            cur = et.snap(list(et.witness))
+            cur = cur if is_z3(cur) else None
+        return path
+    paths = [path_of(t) for t in terms]
+    for t in terms:
+        for path in paths:
+            cur, pos = t, 0
+            while is_z3(cur) and cur.sexpr() in reg:
+                et = reg[cur.sexpr()]
+                r = len(et.shape)
+                if pos + r > len(path):
+                    break
+                idx = path[pos:pos + r]
+                out.append(extreme_bound(it, cur, idx))
+                cur = et.snap(list(idx))
+                pos += r
+    return out
